@@ -12,7 +12,8 @@
 //                 <q:0|1|2|3 = queue exercise: 1 padded statements (> half a queue node each, so the producer moves
 //                  to a new, larger node) with transit_events_hard_limit 1; 2 the thread shrinks its queue before
 //                  each statement but its first, hard limit 1; 3 as 2 with default limits, after a pause that lets
-//                  the backend drain the old node> step...
+//                  the backend drain the old node; 5 no queue exercise but a timestamp-ordering grace period of 100 ms>
+//                 step...
 //   named: 0 no logger named in SignalHandlerOptions, 1 the logger that exists, 2 a name no logger has (the handler
 //          must fall back to the first valid logger)
 // All threads use FrontendOptions with initial_queue_capacity 4096 (so that growth / shrink are within reach).
@@ -262,6 +263,7 @@ void do_start(int t)
     bo.transit_events_soft_limit = 1;
     bo.transit_events_hard_limit = 1;
   }
+  if (g_scn->q == 5) bo.log_timestamp_ordering_grace_period = std::chrono::milliseconds{100};
   bo.wait_for_queues_to_empty_before_exit = g_scn->wait;
   bo.error_notifier = [](std::string const&) {};
   // the hold gate is closed BEFORE the backend starts, so that the very first statement it processes holds it
@@ -305,7 +307,7 @@ void do_log(int t)
 {
   int const n = ++g_nlog[t];
 #if !defined(VL_BOUNDED)
-  if (n > 1 && g_scn->q >= 2)
+  if (n > 1 && g_scn->q >= 2 && g_scn->q <= 3)
   {
     if (g_scn->q == 3) nap(400 + static_cast<unsigned>(g_scn->sleep_us > 0 ? g_scn->sleep_us : 0));
     size_t const cap = FrontendT::get_thread_local_queue_capacity();
